@@ -27,6 +27,10 @@ func runC07(env *Env, rc *RunCtx) {
 		runC07Tokens(env, rc, sys, dom)
 		return
 	}
+	if rc.Mode == "traverse" {
+		runC07Traverse(env, rc, sys)
+		return
+	}
 	// the query and n matching rows
 	ns, rel := pick(t, dom.NS), pick(t, dom.Rels)
 	shape := t.Choose(4)
@@ -43,6 +47,13 @@ func runC07(env *Env, rc *RunCtx) {
 		sizes = []int{0, 1, 2, 3, 5, 7, 20, 99, 100, 101, 105}
 	}
 	n := sizes[t.Choose(len(sizes))]
+	bigRun := t.Bool(1, 12)
+	if bigRun {
+		// thousands of rows and page sizes in the thousands: boundaries an
+		// implementation might clamp or batch at (none copied from the code)
+		n = []int{999, 1000, 1001, 2001, 5003}[t.Choose(5)]
+		rc.Count("probe_thousands_of_rows", 1)
+	}
 	mkMatching := func(i int) Tuple {
 		x := Tuple{NS: ns, Obj: fmt.Sprintf("m%d", i), Rel: pick(t, dom.Rels), Sub: Subject{ID: pick(t, dom.Users)}}
 		if q.Rel != nil {
@@ -78,8 +89,12 @@ func runC07(env *Env, rc *RunCtx) {
 	for i := 0; i < nOther; i++ {
 		ds = append(ds, Delta{Insert: true, T: mkOther(i)})
 	}
-	if len(ds) > 0 {
-		if r := sys.Transact(ds); !r.OK() {
+	for i := 0; i < len(ds); i += 2500 {
+		j := i + 2500
+		if j > len(ds) {
+			j = len(ds)
+		}
+		if r := sys.Transact(ds[i:j]); !r.OK() {
 			env.T.Fatalf("harness: setup transact failed: %s", r)
 		}
 	}
@@ -91,6 +106,9 @@ func runC07(env *Env, rc *RunCtx) {
 	}
 	// page size relative to n
 	cands := []int{0, 1, 2, n - 1, n, n + 1, 100, 101}
+	if bigRun {
+		cands = []int{0, 500, 1000, 1001, 5000, 5001, 7000, n - 1, n, n + 1}
+	}
 	size := cands[t.Choose(len(cands))]
 	if size < 0 {
 		size = 1
@@ -285,4 +303,84 @@ func runC07Tokens(env *Env, rc *RunCtx, sys *Sys, dom Domain) {
 	if rc.WantSample {
 		rc.Rec.Sample = w
 	}
+}
+
+
+// mode traverse: the internal consumers of paging. A node with N subject-set
+// rows (N around 1000, 2000: boundaries a traversal might page at; none copied
+// from the code), exactly one of which - at a chosen position in storage order
+// - leads to the subject. The check must find it wherever it sits.
+func runC07Traverse(env *Env, rc *RunCtx, sys *Sys) {
+	t := rc.CaseTape
+	env.SetLimitsCached(Limits{Depth: 10, Width: 65535})
+	N := []int{99, 100, 101, 999, 1000, 1001, 1002, 1500, 1999, 2000, 2001, 2002, 3001}[t.Choose(13)]
+	if rc.Tier == "quick" && N > 2002 {
+		N = 1001
+	}
+	var pos int
+	switch t.Choose(4) {
+	case 0:
+		pos = t.Choose(N)
+	case 1:
+		pos = N - 1 - t.Choose(3)
+	default:
+		// at and around a multiple of 100 / 1000
+		base := []int{100, 1000, 2000}[t.Choose(3)]
+		pos = base - 2 + t.Choose(5)
+	}
+	if pos < 0 || pos >= N {
+		pos = N - 1
+	}
+	// storage order = insertion order (ascending or descending shard ids)
+	order := []int{orderAsc, orderDesc}[t.Choose(2)]
+	theGen.Reseed(uint64(t.Choose(1<<30)), order)
+	var ds []Delta
+	for i := 0; i < N; i++ {
+		ds = append(ds, Delta{Insert: true, T: Tuple{NS: "N0", Obj: "wide", Rel: "r0", Sub: Subject{Set: &SetRef{NS: "N1", Obj: fmt.Sprintf("g%d", i), Rel: "m"}}}})
+	}
+	for i := 0; i < len(ds); i += 2500 {
+		j := i + 2500
+		if j > len(ds) {
+			j = len(ds)
+		}
+		if r := sys.Transact(ds[i:j]); !r.OK() {
+			env.T.Fatalf("harness: setup failed: %s", r)
+		}
+	}
+	if r := sys.Create(Tuple{NS: "N1", Obj: fmt.Sprintf("g%d", pos), Rel: "m", Sub: Subject{ID: "alice"}}); !r.OK() {
+		env.T.Fatalf("harness: setup failed: %s", r)
+	}
+	rc.Rec.Execs++
+	rc.Rec.NonTrivial = true
+	rc.Rec.CaseHash = fmt.Sprintf("%016x", fnv64(fmt.Sprintf("trav %d %d %d", N, pos, order), 0))
+	w := map[string]any{"subject_sets_on_node": N, "member_group_position_in_insertion_order": pos, "storage_order": []string{"random", "asc", "desc"}[order]}
+	_, a := sys.CheckREST("get-openapi", Tuple{NS: "N0", Obj: "wide", Rel: "r0", Sub: Subject{ID: "alice"}}, nil)
+	if a == nil || !*a {
+		rc.Violate("traversal-skipped-row", "check", fmt.Sprintf("N0:wide#r0 has %d subject sets; alice is a member of the one at position %d, but the check says not allowed", N, pos), w, -1, nil)
+		return
+	}
+	_, b := sys.CheckREST("get-openapi", Tuple{NS: "N0", Obj: "wide", Rel: "r0", Sub: Subject{ID: "mallory"}}, nil)
+	if b == nil || *b {
+		rc.Violate("traversal-invented-row", "check", "a subject that is in none of the subject sets is allowed", w, -1, nil)
+		return
+	}
+	// the listing of the node over REST with the default page size sees every row once
+	ns, obj, rel := "N0", "wide", "r0"
+	_, ts, pages := sys.ListAll(Query{NS: &ns, Obj: &obj, Rel: &rel}, 0, t.Bool(1, 2))
+	if len(ts) != N || len(bag(ts)) != N {
+		rc.Violate("row-missing", "list", fmt.Sprintf("listing the node returned %d items (%d distinct) in %d pages, expected %d", len(ts), len(bag(ts)), pages, N), w, -1, nil)
+		return
+	}
+	rc.Count("probe_wide_node_over_1000", b2i(N > 1000))
+	rc.Count("traverse_cases", 1)
+	if rc.WantSample {
+		rc.Rec.Sample = w
+	}
+}
+
+func b2i(b bool) int {
+	if b {
+		return 1
+	}
+	return 0
 }
